@@ -671,8 +671,62 @@ func (m *monitors) recordVote(voter, term, to uint64) {
 	m.votes[k] = to
 }
 
+// persistBeforeSend (C04 at simulator level): what a message tells other
+// replicas about the sender's term, vote and log must already be in the
+// sender's durable store (what SaveRaftState received) when the message
+// leaves. Replicate and Ping may leave early by design (node.go).
+func (m *monitors) persistBeforeSend(from *replica, msg pb.Message) {
+	st := from.store.state
+	switch msg.Type {
+	case pb.RequestVote:
+		m.count("c04_vote_requests_checked", 1)
+		if st.Term < msg.Term || (st.Term == msg.Term && st.Vote != from.id) {
+			m.violation("C04", "vote-request-before-term-and-vote-durable",
+				fmt.Sprintf("replica %d sends RequestVote for term %d while its durable state is term %d vote %d", from.id, msg.Term, st.Term, st.Vote))
+		}
+	case pb.RequestVoteResp:
+		if msg.Reject {
+			return
+		}
+		m.count("c04_vote_grants_checked", 1)
+		if st.Term < msg.Term || (st.Term == msg.Term && st.Vote != msg.To) {
+			m.violation("C04", "vote-not-durable-before-grant",
+				fmt.Sprintf("replica %d grants its vote of term %d to %d while its durable state is term %d vote %d", from.id, msg.Term, msg.To, st.Term, st.Vote))
+		}
+	case pb.ReplicateResp:
+		if msg.Reject {
+			return
+		}
+		m.count("c04_replication_acks_checked", 1)
+		if st.Term < msg.Term {
+			m.violation("C04", "ack-before-term-durable",
+				fmt.Sprintf("replica %d acknowledges replication in term %d while its durable term is %d", from.id, msg.Term, st.Term))
+		}
+		if st.Term > msg.Term {
+			// the replica moved on to a later term within the same step-worker batch (its log may
+			// have been rewritten by the new leader in that batch): the acknowledgement is what it
+			// would have sent had the batch been split, when the entries were on its disk
+			m.count("c04_acks_of_an_earlier_term_in_the_same_batch", 1)
+			return
+		}
+		if msg.LogIndex > 0 {
+			if _, ok := from.store.durableEntry(msg.LogIndex); !ok && from.store.snapshot.Index < msg.LogIndex {
+				m.violation("C04", "ack-before-entries-durable",
+					fmt.Sprintf("replica %d acknowledges entries up to %d which are not in its durable log (snapshot %d)", from.id, msg.LogIndex, from.store.snapshot.Index))
+			}
+		}
+	case pb.HeartbeatResp:
+		m.count("c04_heartbeat_responses_checked", 1)
+		if st.Term < msg.Term {
+			m.violation("C04", "heartbeat-response-before-term-durable",
+				fmt.Sprintf("replica %d answers a heartbeat of term %d while its durable term is %d", from.id, msg.Term, st.Term))
+		}
+	}
+}
+
 func (m *monitors) onSend(from *replica, msg pb.Message) {
 	m.count("msgs_sent_"+msg.Type.String(), 1)
+	m.persistBeforeSend(from, msg)
 	switch msg.Type {
 	case pb.RequestVote:
 		// asking for votes in a term implies having voted for oneself
